@@ -503,6 +503,7 @@ class _ToEquivalent(Contract):
             # memoised Units were built by Unit.__new__ against this registry
             cu = make_unit(it_, "cached_target", registry=reg)
             it_.assume(z3.Length(S.ustr(cu)) >= 1)
+            it_.__dict__.setdefault("memoised_units", []).append((key, cu))
             return cu
         reg.fields["_unit_object_cache"].reader = cached
         u = make_unit(it, "xu", registry=reg)
@@ -574,6 +575,10 @@ class _ToEquivalent(Contract):
                         "formula's" % (s_, d_), z3.Implies(c, law)))
         out.append(("C09: a value is returned only for the input's own dimension or a pair the equivalence covers",
                     z3.Or(*cases)))
+        memo = [u for (k_, u) in it.__dict__.get("memoised_units", []) if k_ is a.unit]
+        parsed = [e_ for (s0, e_) in it.__dict__.get("parsed_exprs", []) if s0 is a.unit]
+        out.append(("C09: the value is expressed in the requested unit (the Unit memoised for, or parsed from, the "
+                    "unit string)", any(ru is u for u in memo) or any(ru.fields["expr"] is e_ for e_ in parsed)))
         return out + unchanged("C09/C18: input of the copying entry point", a.self, old)
 
     def on_raise(self, it, a, old, exc):
